@@ -74,6 +74,10 @@ struct Dw {
     obs: u64,
     last_fresh_ms: Option<u64>,
     last_gap_ok: bool,
+    /// fresh observations since the last evaluation that found the member dead whose gap to the
+    /// previous fresh observation is at most max_interval (what the sampling window can hold)
+    usable: u64,
+    prop: String,
     step: usize,
     stats: Stats,
     trace: Trace,
@@ -110,6 +114,8 @@ impl Dw {
             obs: 0,
             last_fresh_ms: None,
             last_gap_ok: true,
+            usable: 0,
+            prop: String::new(),
             step: 0,
             stats: Stats::default(),
             trace: Trace::default(),
@@ -159,6 +165,11 @@ impl Dw {
                 if known_after {
                     if !known_before {
                         self.obs = 0;
+                    }
+                    if let Some(t) = self.last_fresh_ms {
+                        if self.obs >= 2 && self.now - t <= self.cfg.max_interval_ms {
+                            self.usable += 1;
+                        }
                     }
                     if let (Some(t), Some((a, bb))) = (self.last_fresh_ms, self.cfg.steady) {
                         let gap = self.now - t;
@@ -217,6 +228,13 @@ impl Dw {
                 if live {
                     self.stats.inc("live_verdicts");
                 }
+                if known && live && self.usable == 0 && (self.prop == "C10" || self.prop == "C11") {
+                    let prop = self.prop.clone();
+                    return Err(mk(&prop, &format!("{prop}.live_without_usable_interval"), format!("member live at t={} although no inter-arrival interval within max_interval was observed since it was last found dead ({} observations overall)", self.now, self.obs)));
+                }
+                if known && !live {
+                    self.usable = 0;
+                }
                 if known && live && self.obs < 2 {
                     return Err(mk("C11", "C11.live_too_early", format!("member live after {} strictly increasing heartbeat value(s)", self.obs)));
                 }
@@ -249,6 +267,7 @@ impl Dw {
                 } else {
                     // removed: observation count restarts when it is created again
                     self.obs = 0;
+                    self.usable = 0;
                     self.last_gap_ok = true;
                     self.last_fresh_ms = None;
                     self.stats.inc("probe_member_removed");
@@ -311,6 +330,7 @@ fn gen(seed: u64) -> (DetCfg, Vec<DetCmd>) {
 
 fn execute(cfg: &DetCfg, cmds: &[DetCmd], log: bool, prop: &str) -> (Outcome, Vec<String>) {
     let mut w = Dw::new(cfg);
+    w.prop = prop.to_string();
     let mut v = None;
     for c in cmds {
         if let Err(e) = w.apply(c, log) {
